@@ -1,14 +1,6 @@
 _D = 'AITB.Sampling.'
 
 
-def _classify_crash(cr):
-    # harness case 13 samples the LAST stored row of a sparse matrix with a draw above the row sum:
-    # on the unrepaired code the scan reads past the value array (ASan: heap-buffer-overflow)
-    if cr.get('case') == 13 and 'heap-buffer-overflow' in (cr.get('detail') or ''):
-        return 'sampleProbability_sparse', 'out_of_bounds_read_last_row'
-    return 'C08', cr.get('kind', 'crash')
-
-
 SPEC = {
     'id': 'C08',
     'lean_modules': ['AITB.Props.C08Dense', 'AITB.Props.C08Project', 'AITB.Props.C08Vose', 'AITB.Props.C08', 'AITB.Props.C08Measure', 'AITB.Props.C08Round'],
@@ -54,7 +46,6 @@ SPEC = {
         'denseA_round_bounds', 'denseA_round_agrees', 'spacingsA_round', 'makeRandomProbabilityA_round',
     ]],
     'harness': 'harness/c08.cpp',
-    'classify_crash': _classify_crash,
     'level': 'proof',
     'timeout': {'quick': 400, 'thorough': 2400},
     'rule': 'seeded distributions (lengths 1..12 quick / 1..64 thorough; zeros anywhere, mass at first/last index, above-average first entry, '
